@@ -223,7 +223,14 @@ func c02Body(c *fw.Ctx) {
 		f := c02Parse(cfg, p, base, input)
 		if f == nil {
 			var err error
-			if pan := guarded(1<<40, func() { _, err = p.Parse(input) }); pan == "" && err == nil {
+			nb := int64(len(input))
+			pan := guarded(4000*(nb+32)+16*nb*nb, func() { _, err = p.Parse(input) })
+			if pan != "" && base != "" {
+				// the base-less parse of the same input misbehaves: that is a case of its own
+				c.Eval()
+				report(c02Parse(cfg, p, "", input), "c02-parse", cfg, []string{"", input}, nil)
+			}
+			if pan == "" && err == nil {
 				c.Nontrivial()
 				if c.WantSample(label) && len(input) > 8 && len(cfg) > 0 {
 					c.Sample(label, map[string]string{"config": cfgName(cfg), "input": fmt.Sprintf("%q", input), "base": fmt.Sprintf("%q", base)})
